@@ -5,7 +5,9 @@ Model: NoKVModel/Conc/PDAlloc.lean (micro-steps of AllocID / Tso / persistAlloca
 SaveAllocatorState / restart through ResolveAllocatorStarts).  All theorems quantify over every
 reachable state of every schedule: any number of concurrent requests of either kind and any
 counts, interleaved at the granularity of single atomic operations, with restarts (process
-crashes) at any point.  "Handed out" = replied to a client.  The ghost flag `ovf` records that a
+crashes) at any point, and checkpoint writes that fail (`failSave`: the request then answers with an
+error and hands nothing out) — so uniqueness and coverage hold across failed persists with
+concurrent reservations.  "Handed out" = replied to a client.  The ghost flag `ovf` records that a
 counter has reached MaxUint64 (2^64-1 values consumed: the allocator is exhausted and the Go
 `atomic.Add` wraps); the statements are about executions in which that has not happened.
 
@@ -68,13 +70,13 @@ theorem C27_checkpoint_covers (c : AllocCfg) (hc : c.Good) (s : St) (hr : Reacha
   refine ⟨hcv.ckLe, hcv.repCk, ?_⟩
   intro r hrm
   have hck : s.ck r.kind < MAXU := Nat.lt_of_le_of_lt (hcv.ckLe _) (hb.ctrLt _)
-  have := restart_ctr c hc.2.2 (s.start r.kind) (s.ck r.kind) (hb.startLt _) hck
+  have := restart_ctr c hc.2.2.1 (s.start r.kind) (s.ck r.kind) (hb.startLt _) hck
   exact Nat.le_trans (hcv.repCk r hrm) this.1
 
 /-- **Partial (any configuration, as-is included).**  Between restarts the atomic `Add` alone
 keeps replies unique: on every execution without a `restart` action the replied ranges are
 pairwise disjoint.  What the as-is code loses is only the guarantee across a restart. -/
-theorem C27_partial (c : AllocCfg) (_hc : True) (s : St)
+theorem C27_partial (c : AllocCfg) (hc : c.releasesOnError = false) (s : St)
     (hr : ReachableVia (sys c) (fun a => a ≠ .restart) s) (hov : s.ovf = false) :
     s.replied.Pairwise Disj := by
   have : s.ovf = false → Base c s := by
@@ -83,7 +85,7 @@ theorem C27_partial (c : AllocCfg) (_hc : True) (s : St)
     · rintro s ⟨start, hst, rfl⟩ _
       exact Base.init c start hst
     · intro s a s' hi ha hs hov'
-      exact Base.step_noRestart (hi (ovf_mono c s s' a hs hov')) ha hs hov'
+      exact Base.step_noRestart hc (hi (ovf_mono c s s' a hs hov')) ha hs hov'
   exact (this hov).repDisj
 
 /-- **`ResolveAllocatorStarts` arithmetic.**  For a checkpoint below MaxUint64 the resolved start
@@ -134,7 +136,43 @@ theorem C27_fails_asis_reorder (c : AllocCfg)
     decide
   · refine ⟨⟨.id, 11, 11⟩, by decide, ⟨.id, 11, 20⟩, by decide, by decide, rfl, rfl⟩
 
+/-! ### a failed persist that gives its range back (seed C27-m1r2; not the tree's behaviour) -/
+
+/-- Reserve runs outside the persist mutex.  Request 0 reserves id 1 and its checkpoint write fails;
+meanwhile request 1 has reserved id 2.  Request 0 "returns" its range by subtracting 1 from the
+counter — which removes request 1's value: request 1 still answers 2, and request 2 gets 2 again. -/
+theorem C27_fails_release_on_error (c : AllocCfg)
+    (hc : c = { AllocCfg.good with releasesOnError := true }) :
+    ∃ s, Reachable (sys c) s ∧ s.ovf = false ∧ ¬ s.replied.Pairwise Disj := by
+  subst hc
+  let c0 : AllocCfg := { AllocCfg.good with releasesOnError := true }
+  have hinit : Reachable (sys c0) (initSt c0 (fun _ => 1)) :=
+    .init ⟨fun _ => 1, by intro k; show 1 < MAXU; decide, rfl⟩
+  refine ⟨run (sys c0) (initSt c0 (fun _ => 1))
+    [ .spawn 0 .id 1, .run 0, .run 0, .run 0, .run 0,      -- reserve 1, lock, load, load: at the save
+      .failSave 0,
+      .spawn 1 .id 1, .run 1,                              -- reserve 2 (the mutex is held by request 0)
+      .run 0, .run 0, .run 0,                              -- save fails, unlock, error reply: counter 2 → 1
+      .run 1, .run 1, .run 1, .run 1, .run 1, .run 1,      -- lock, load, load, save, unlock, reply 2
+      .spawn 2 .id 1, .run 2, .run 2, .run 2, .run 2, .run 2, .run 2, .run 2 ],  -- reserve 2 again … reply 2
+    run_reachable _ _ hinit _, by decide, ?_⟩
+  intro h
+  have := hasDup_false_of_pairwise _ h
+  revert this
+  decide
+
 /-! ### non-vacuity -/
+
+/-- under the good configuration the same schedule (a failed checkpoint write with a concurrent
+reservation) hands out 2 and 3: the failed request's value 1 is simply never used -/
+example :
+    (run (sys AllocCfg.good) (initSt AllocCfg.good (fun _ => 1))
+      [ .spawn 0 .id 1, .run 0, .run 0, .run 0, .run 0, .failSave 0, .spawn 1 .id 1, .run 1,
+        .run 0, .run 0, .run 0, .run 1, .run 1, .run 1, .run 1, .run 1, .run 1,
+        .spawn 2 .id 1, .run 2, .run 2, .run 2, .run 2, .run 2, .run 2, .run 2 ]).replied
+      = [⟨.id, 3, 3⟩, ⟨.id, 2, 2⟩] := by
+  decide
+
 
 example : AllocCfg.good.Good := by decide
 
